@@ -286,6 +286,14 @@ def parse_output(out, res):
             res.violated = "temporal"
             res.temporal_name = ln.split()[3]
             res.all.append((res.violated, None))
+        elif re.match(r"Error: Temporal properties .+ were violated", ln) and not ln.startswith("Error: Temporal properties were"):
+            # "Temporal properties A and B were violated." (one lasso violates several PROPERTY lines)
+            res.violated = "temporal"
+            names = re.findall(r"[A-Za-z_][A-Za-z0-9_]*", ln[len("Error: Temporal properties "):ln.index(" were violated")])
+            names = [n for n in names if n != "and"]
+            res.temporal_name = names[0] if names else None
+            res.temporal_names = names
+            res.all.append((res.violated, None))
         elif ln.startswith("Error: Temporal properties were violated"):
             res.violated = "temporal"
             res.all.append((res.violated, None))
